@@ -91,7 +91,27 @@ class Ctx:
 
     @cached_property
     def cli_cone(self) -> Set[FuncInfo]:
-        return self.cg.reachable([self.prog.func("json_to_models/cli.py", "main")], byname=True)
+        cone = self.cg.reachable([self.prog.func("json_to_models/cli.py", "main")], byname=True)
+        # closures built at import time by calls in cli.py's module / class bodies (the convert_args(...) wrappers stored in
+        # Cli's dispatch tables) are called later through those tables
+        import ast as _ast
+        mod = self.prog.module("json_to_models/cli.py")
+        factories = set()
+        fn_nodes = {id(x) for f in mod.all_funcs for x in _ast.walk(f.node) if x is not f.node}
+        for n in _ast.walk(mod.tree):
+            if isinstance(n, _ast.Call) and id(n) not in fn_nodes and isinstance(n.func, (_ast.Name, _ast.Attribute)):
+                name = n.func.id if isinstance(n.func, _ast.Name) else n.func.attr
+                r = self.prog.resolve_global(mod, name) if isinstance(n.func, _ast.Name) else None
+                if isinstance(r, FuncInfo):
+                    factories.add(r)
+        extra = []
+        for f in self.prog.all_funcs():
+            if f.parent in factories and any(isinstance(x, _ast.Return) and isinstance(x.value, _ast.Name) and x.value.id == f.name
+                                             for x in _ast.walk(f.parent.node)):
+                extra.append(f)
+        if extra:
+            cone = cone | self.cg.reachable(extra, byname=True) | factories
+        return cone
 
     def is_cli_only(self, fi: FuncInfo) -> bool:
         return fi not in self.lib_cone
